@@ -218,6 +218,32 @@ def feasible(assertions, timeout_ms=5000):
     return r, model
 
 
+_CHOICE_SOLVER = []
+
+
+def confirm_choices(assertions, timeout_ms=5000):
+    """Satisfiability of a path condition over choice variables (bounded ints / bools): one persistent z3 solver."""
+    t0 = time.time()
+    try:
+        if not _CHOICE_SOLVER:
+            _CHOICE_SOLVER.append(z3.SolverFor('QF_LIA'))
+        s = _CHOICE_SOLVER[0]
+        s.push()
+        try:
+            s.add(assertions)
+            r = str(s.check())
+        finally:
+            s.pop()
+    except z3.Z3Exception:
+        del _CHOICE_SOLVER[:]
+        return feasible(assertions, timeout_ms)[0]
+    if r == 'unknown':
+        return feasible(assertions, timeout_ms)[0]
+    STATS.feas += 1
+    STATS.solver_s += time.time() - t0
+    return r
+
+
 def decide(assertions, timeout_ms=20000, cross=True):
     """Deciding query. Returns (result, model_or_None, detail). result in sat/unsat/unknown.
     cvc5 primary; a z3 answer obtained within 2 s is compared (disagreement -> 'unknown' with detail)."""
